@@ -2,11 +2,11 @@ package core
 
 import (
 	"encoding/json"
-	"regexp"
 	"fmt"
 	"os"
 	"os/exec"
 	"path/filepath"
+	"regexp"
 	"runtime"
 	"sort"
 	"strings"
@@ -20,11 +20,12 @@ type Adapter func(args []string) string
 
 // G is what a stream generator gets: the PRNG, the tier, and Emit.
 type G struct {
-	R        *Rand
-	Thorough bool
-	Scale    int // 1 normally; raised while searching for a witness
-	ops      []string
-	gens     []genReq
+	R         *Rand
+	Thorough  bool
+	Scale     int // 1 normally; raised while searching for a witness
+	Escalated bool
+	ops       []string
+	gens      []genReq
 }
 
 type genReq struct {
@@ -63,6 +64,15 @@ func (g *G) resolveGens() error {
 
 // N picks a case count for the tier.
 func (g *G) N(quick, thorough int) int {
+	if g.Escalated {
+		// quick tier with an unavailable fact / changed fingerprint: more cases, but the
+		// check has to stay a quick one
+		n := quick * 8
+		if n > thorough {
+			n = thorough
+		}
+		return n * g.Scale
+	}
 	if g.Thorough {
 		return thorough * g.Scale
 	}
@@ -487,7 +497,7 @@ func Run(p *Property, o Options) int {
 	runStreams := func(scale int, thoroughGen bool, record bool, r *Rand) error {
 		// corpus first
 		for _, s := range p.Streams {
-			g := &G{R: r.Fork(s.Name), Thorough: thoroughGen, Scale: scale}
+			g := &G{R: r.Fork(s.Name), Thorough: thoroughGen && thorough, Scale: scale, Escalated: thoroughGen && !thorough}
 			if record {
 				g.ops = append(g.ops, loadCorpus(root, p.ID, s.Name)...)
 			}
